@@ -220,6 +220,7 @@ func (t *stdioClientTransport) sendRequest(ctx context.Context, req *JSONRPCRequ
 
 	// Clean up on exit.
 	defer func() {
+		verifYield("stdiocli.req.cleanup")
 		t.pendingMutex.Lock()
 		delete(t.pendingRequests, reqID)
 		t.pendingMutex.Unlock()
@@ -371,6 +372,7 @@ func (t *stdioClientTransport) handleResponse(rawMessage json.RawMessage) {
 	t.pendingMutex.RLock()
 	respChan, exists := t.pendingRequests[reqID]
 	t.pendingMutex.RUnlock()
+	verifYield("stdiocli.resp.lookup")
 
 	if !exists {
 		t.logger.Warnf("No pending request for ID: %d", reqID)
@@ -429,6 +431,7 @@ func (t *stdioClientTransport) handleErrorResponse(rawMessage json.RawMessage) {
 	t.pendingMutex.RLock()
 	respChan, exists := t.pendingRequests[reqID]
 	t.pendingMutex.RUnlock()
+	verifYield("stdiocli.resp.lookup")
 
 	if !exists {
 		t.logger.Warnf("No pending request for error ID: %d", reqID)
